@@ -6,6 +6,7 @@ Correspondence: Go's bytes == the model's bytes; Go's decoder on the model's byt
 json.Marshal's text (parsed independently) == the model's to_json; Go's JSON round trip == the model's of_json(to_json v)."""
 import codec_common
 import dec_fir
+import c01_driver
 
 PID = "C01"
 
@@ -13,7 +14,9 @@ PID = "C01"
 def run(tier, seed, replay=None):
     # Way 1 for decoding (checks/dec_fir.py, every run): generated_unmarshal.go of this run is translated into the decoder IR and
     # the Coq kernel checks that it is exactly what the schema compiles to (dprogs_match, vm_compute)
-    with dec_fir.attached(PID, tier, seed, replay):
+    # driver level (checks/c01_driver.py, every run): the readings a real Driver/LLRPDevice hands to the SDK for read commands and reports,
+    # over many reads of the same resources, are the values the scripted Reader sent each time (JSON == the model's to_json), and stay so
+    with dec_fir.attached(PID, tier, seed, replay), c01_driver.attached(PID, tier, seed, replay):
         return _run(tier, seed, replay)
 
 
